@@ -475,7 +475,8 @@ PROPS["C11"] = {
              "two chunks, replace by temp file + rename inside the directory, move a complete file in from outside (onto a new or an "
              "existing name), hard-link a file in, create an empty file, rename away to outside, rename to another Spec name or to a "
              "non-Spec name inside the directory, remove, mkdir of a missing directory, remove a directory with its content (recreated by a "
-             "later mkdir); contents are valid Specs (2 kinds x 2 device names, unique marker), unparsable or empty; after every action a "
+             "later mkdir), rename a whole directory away from its configured path, rename a complete prepared directory into a missing "
+             "configured path, a plain query; contents are valid Specs (2 kinds x 2 device names, unique marker), unparsable or empty; after every action a "
              "pacing draw: nothing / yield / 1 ms / 20 ms / one query. Oracle (differential, as the statement defines it): after the last "
              "action the view through queries (devices with path, priority and definition; files in error) is polled until it equals the "
              "view of a cache freshly built from the final directory contents; only 'still different 10 s after the last change' is a "
@@ -483,10 +484,15 @@ PROPS["C11"] = {
              "'steps'). configure-race unit: a 300-file directory; 16 (thorough 64 per shard) times a file already passed by the scan is "
              "replaced at a delay spread over the duration of one scan while Configure / NewCache runs; the cache must still converge "
              "(the watch has to exist before the scan). regress unit: scripted histories with explicit pacing (cache lock held to delay "
-             "the watcher) for F10 and F17. Non-trivial iff the history has a create-only event (move-in, link, empty create), a directory removed or "
+             "the watcher) for F10, F17 and F18. during unit: the harness owns the schedule of one scan - the last file of one directory (any list "
+             "position) is a symbolic link to a named pipe outside the configured directories, so NewCache / Configure(dirs) on a manual or "
+             "an auto cache blocks inside its scan until the harness feeds the pipe; in that window one generated change (create, rewrite, "
+             "remove, move-in, replace by rename, mkdir+file of a missing directory, remove or rename away a directory) is made in a directory "
+             "already scanned or not yet scanned, the pipe is replaced by a regular file through a rename outside the watched directories, "
+             "nothing changes afterwards, and the cache must converge to the fresh view. Non-trivial iff the history has a create-only event (move-in, link, empty create), a directory removed or "
              "created, or >= 4 actions; distinct = distinct histories. Race-detector build."),
     "assumptions": ["'soon' is decided by a 10 s quiescence bound (observed convergence: milliseconds)",
-                    "not generated: renaming a watched directory away, writes through a hard link from outside, chmod-only changes, symlink targets changing"],
+                    "not generated: writes through a hard link from outside, chmod-only changes, symlink targets changing"],
     "manifest": {
         "text": ("Generated histories of real file-system operations against a live watcher goroutine, compared with a freshly built cache after "
                  "quiescence. Schedules relative to the watcher are sampled through pacing draws, not enumerated; liveness is judged by a bound."),
@@ -495,12 +501,13 @@ PROPS["C11"] = {
     },
     "parallel": 16,
     "health": {"quick": {"op:moveIn": 500, "op:linkIn": 500, "op:createEmpty": 300, "op:removeDir": 500, "op:mkdirMissing": 300, "op:rewriteInChunks": 500,
-                         "op:renameInside": 500, "op:renameAway": 500, "last:moveIn": 20, "last:linkIn": 20, "last:remove": 20}},
+                         "op:renameInside": 500, "op:renameAway": 500, "op:renameDirAway": 300, "op:renameDirIn": 100, "target:already-scanned": 20, "target:not-yet-scanned": 20, "last:moveIn": 20, "last:linkIn": 20, "last:remove": 20}},
     "units": [
         {"name": "regress", "mode": "plain", "run": "TestC11Regress", "race": True},
         {"name": "configure-race", "mode": "plain", "run": "TestC11ConfigureRace", "race": True, "shards": {"quick": 2, "thorough": 8},
          "env": {"VERIF_C11_RACE_ITERS": {"quick": 16, "thorough": 64}}},
         {"name": "rapid", "mode": "rapid", "run": "TestC11Rapid", "race": True, "checks": {"quick": 2400, "thorough": 48000}, "timeout": {"quick": 400, "thorough": 3600}},
+        {"name": "during", "mode": "rapid", "run": "TestC11During", "race": True, "shards": 4, "checks": {"quick": 320, "thorough": 8000}},
     ],
 }
 
@@ -551,7 +558,7 @@ PROPS["C20"] = {
     "rule": ("rapid unit: state machine on one cache (own process per shard: rlimits and inotify accounting are process-wide) over a pool of 4 "
              "directories (existing or missing, optional initial Spec). Actions: Configure with 0..3 generated options (directory lists of "
              "0..3 pool entries with repeats, auto-refresh on/off, several options in one call, empty call), directory changes (put a valid "
-             "or invalid Spec by rename, remove an entry, remove the directory), and a descriptor-shortage window (RLIMIT_NOFILE lowered to "
+             "or invalid Spec by rename, remove an entry, remove the directory, rename the directory away), and a descriptor-shortage window (RLIMIT_NOFILE lowered to "
              "the table size, holes filled) during which the cache is reconfigured and queried. Oracle after every step: obs.FullView "
              "(devices with path, priority, definition; all error keys; directory list; directory-error keys) equals the view of a new cache "
              "created with the final options - in auto mode within a 10 s bound, in manual mode the view must stay stale after a directory "
@@ -561,6 +568,10 @@ PROPS["C20"] = {
              "and goroutines after 4, 52, 200 and 400 reconfigurations must not grow (tolerance 2). defcache unit: generated histories of "
              "cdi.Configure / directory changes on the package-level default cache, each in its own helper process, before or after first "
              "use, compared with a new cache with the final options (defaults: /etc/cdi, /var/run/cdi, auto on). One case = one history. "
+             "during unit (harness-owned schedule): the scan inside NewCache / Configure(dirs) is held at a named pipe (the last file of one "
+             "directory, through a symbolic link) while one generated change is made in a final directory already scanned or not yet scanned; "
+             "afterwards the cache must converge to the view of a new cache with the final options ('reacting to changes in exactly the final "
+             "directories' includes a change that lands between the start of the watch and the end of the scan). "
              "Non-trivial iff >= 3 reconfigurations including an auto switch or a directory-list change, or a shortage window (rapid); "
              ">= 2 cdi.Configure calls (defcache); distinct = distinct histories."),
     "assumptions": ["known finding F16 (partial shortage with a reusable watcher) is excluded by construction and probed separately (unit known-f16)",
@@ -573,11 +584,12 @@ PROPS["C20"] = {
         "technique": "property-based testing: rapid state machine with differential oracle (fresh cache), resource invariants from /proc, fault injection by RLIMIT_NOFILE; helper process per default-cache history",
     },
     "helpers": ("vhelper",),
-    "health": {"quick": {"auto-switched": 200, "dir-list-changed": 200, "descriptor-shortage": 200, "configured-after-first-use": 50, "configured-before-first-use": 50, "growth-series": 2}},
+    "health": {"quick": {"how:Configure(dirs) from auto": 30, "target:already-scanned": 20, "auto-switched": 200, "dir-list-changed": 200, "descriptor-shortage": 200, "configured-after-first-use": 50, "configured-before-first-use": 50, "growth-series": 2}},
     "units": [
         {"name": "rapid", "mode": "rapid", "run": "TestC20Rapid", "race": True, "checks": {"quick": 480, "thorough": 12000}, "timeout": {"quick": 400, "thorough": 3600}},
         {"name": "growth", "mode": "plain", "run": "TestC20Growth", "race": True},
         {"name": "defcache", "mode": "rapid", "run": "TestC20DefaultCache", "race": True, "shards": 8, "checks": {"quick": 400, "thorough": 8000}},
+        {"name": "during", "mode": "rapid", "run": "TestC20During", "race": True, "shards": 4, "checks": {"quick": 320, "thorough": 8000}},
         {"name": "known-f16", "mode": "plain", "run": "TestC20KnownF16", "race": True},
     ],
 }
@@ -596,6 +608,10 @@ PROPS["C12"] = {
              "dump; (3) snapshot consistency: every ListDevices result restricted to the kind is exactly A's or B's list, every "
              "InjectDevices(d2,d3) carries markers of one state only, InjectDevices(d1,d4) fails with exactly one unresolved name and leaves "
              "the OCI spec untouched, every GetDevice result is the device its own Spec holds and all siblings carry one marker. "
+             "during unit (harness-owned schedule): the scan inside NewCache / Configure is held at a named pipe (the last file of one "
+             "directory, through a symbolic link) while one generated change is made in a watched directory, so that the watcher goroutine "
+             "gets an event while the constructor is still scanning; oracle: no race report, the call returns, and the cache converges to the "
+             "view of a fresh cache. "
              "Non-trivial iff the program contains a mutating operation (Configure, WriteSpec, RemoveSpec); distinct = distinct programs."),
     "assumptions": ["schedules are those the Go runtime produces under stress; they are not enumerated",
                     "the race detector sees only races that the executed schedule makes happen-unordered"],
@@ -606,10 +622,11 @@ PROPS["C12"] = {
         "note": "trusted: the Go race detector; schedules not controlled",
         "technique": "property-based concurrency stress: generated programs under the race detector, snapshot-consistency invariants over every result, deadlock watchdog",
     },
-    "health": {"quick": {"auto-refresh": 50, "manual-with-refresher": 50, "op:Configure" + "Dirs": 20, "op:WriteSpec": 20, "op:InjectBoth": 20}},
+    "health": {"quick": {"how:NewCache": 30, "target:already-scanned": 20, "auto-refresh": 50, "manual-with-refresher": 50, "op:Configure" + "Dirs": 20, "op:WriteSpec": 20, "op:InjectBoth": 20}},
     "units": [
         {"name": "regress", "mode": "plain", "run": "TestC12Regress", "race": True},
         {"name": "rapid", "mode": "rapid", "run": "TestC12Rapid", "race": True, "checks": {"quick": 480, "thorough": 9600}, "timeout": {"quick": 400, "thorough": 3600}},
+        {"name": "during", "mode": "rapid", "run": "TestC12During", "race": True, "shards": 4, "checks": {"quick": 320, "thorough": 8000}},
     ],
 }
 
